@@ -557,6 +557,44 @@ fn conservation<const W: usize>(g: &mut Groups, st: &mut Stats, depth: usize) {
     }
 }
 
+/// Every predefined error, raised by a handler and read back: the count is 1, the answer is
+/// `<number>,"<description>"` with the standard number of that error and a description that is
+/// not empty (an empty description is how the property marks "no error") and that is the text
+/// the library's own `Display` / `Into<&str>` give for the same error; then the queue is empty.
+fn predefined_table(g: &mut Groups, st: &mut Stats) {
+    use mc::ifaces::qi::PREDEFINED;
+    for (i, (err, number)) in PREDEFINED.iter().enumerate() {
+        let mut q: Qi<4> = Qi::new();
+        let mut outs: Vec<Vec<u8>> = vec![];
+        for m in [format!("PE {i}\n"), "SYST:ERR:COUN?\n".to_string(), "SYST:ERR?\n".to_string(), "SYST:ERR:NEXT?;:SYST:ERR:COUN?\n".to_string()] {
+            let mut w: heapless::Vec<u8, 256> = heapless::Vec::new();
+            run_on(&mut q, m.as_bytes(), &mut w, Pattern::NONE);
+            st.transitions += 1;
+            outs.push(w.to_vec());
+        }
+        let text: &str = (*err).into();
+        let display = format!("{err}");
+        let want = format!("{number},\"{text}\"\n");
+        let ok = outs[0].is_empty() && outs[1] == b"1\n" && outs[2] == want.as_bytes() && outs[3] == b"0,\"\"\n0\n" && !text.is_empty() && err.number() == *number && display.contains(text);
+        if !ok {
+            let hist = vec![i as u8];
+            let kind = if text.is_empty() { "empty-description" } else if err.number() != *number { "number" } else { "response" };
+            let feat = vec![("kind", kind.to_string())];
+            g.add("predefined-errors", &feat, (1, &hist), || {
+                (
+                    json!({"cap": 4, "alphabet": "predefined", "history": hist}),
+                    format!(
+                        "predefined error #{i} ({err:?}, standard number {number}) raised by a handler: responses {:?}; expected \"\", \"1\\n\", \"{}\", \"0,\\\"\\\"\\n0\\n\" with a description that is not empty (Display \"{display}\", number() {})",
+                        outs.iter().map(|o| show(o)).collect::<Vec<_>>(),
+                        show(want.as_bytes()),
+                        err.number()
+                    ),
+                )
+            });
+        }
+    }
+}
+
 /// One long history on a queue of `CAP` entries (CAP far beyond the capacities of the search):
 /// alternately two kinds of faulty messages; after each the count query; CAP + 3 errors in all,
 /// then everything is read back.  Every prefix of this history is checked against a plain list.
@@ -626,6 +664,8 @@ fn replay(path: &str) -> ! {
                 70000 => long_line::<70000>(&mut g, &mut st),
                 _ => long_line::<300>(&mut g, &mut st),
             }
+        } else if alpha == "predefined" {
+            predefined_table(&mut g, &mut st);
         } else if alpha == "conservation" {
             match w["writer"].as_u64().unwrap_or(32) {
                 16 => conservation::<16>(&mut g, &mut st, hist.len()),
@@ -720,6 +760,7 @@ fn main() {
     // capacities beyond one and two bytes of count
     let mut lst = Stats::default();
     long_line::<300>(&mut out.groups, &mut lst);
+    predefined_table(&mut out.groups, &mut lst);
     if thorough {
         long_line::<70000>(&mut out.groups, &mut lst);
     }
